@@ -124,7 +124,7 @@ def rotation(draw, classes=('generic', 'perm', 'flip', 'small', 'identity',
         m = np.eye(3)
         m[i, i], m[i, j], m[j, i], m[j, j] = c, -s, s, c
     elif cls == 'small':
-        ang = draw(st.sampled_from([1e-3, 1e-2, 0.05, 0.1]))
+        ang = draw(st.sampled_from([1e-5, 1e-4, 1e-3, 1e-2, 0.05, 0.1]))
         axis = np.array(draw(unit_vector()))
         q = np.concatenate([[math.cos(ang / 2)], math.sin(ang / 2) * axis])
         m = _quat_to_mat(q)
